@@ -299,6 +299,9 @@ func (in *Interp) store(p Ptr, v Value) {
 	if p.obj == nil {
 		in.goPanic("nil pointer dereference (store)")
 	}
+	if in.spec > 0 && p.obj.id <= in.specFloor {
+		panic(&specAbort{"store to an older object in arm"})
+	}
 	in.nstores++
 	if in.storeLog != nil {
 		in.storeLog(p, v)
